@@ -486,13 +486,26 @@ func (b *bb) scenarioJoin() {
 			}()
 			select {
 			case <-ret:
-				// the output must be closed when Stop returns
+				// the output must be closed when Stop returns; what is still read from it
+				// continues the in-order, duplicate-free sequence (the producer writes 0,1,2,...)
 				closed := false
+				last := -1
+				if len(heldCopy) > 0 {
+					last = heldCopy[len(heldCopy)-1]
+				}
 				for i := 0; i < 4; i++ {
 					select {
-					case _, open := <-d.Output():
+					case sl, open := <-d.Output():
 						if !open {
 							closed = true
+							break
+						}
+						for _, x := range sl {
+							if x <= last {
+								b.fail("C16 v1 join: after Stop the output delivered %v, not a continuation of the in-order duplicate-free sequence (the consumer already holds %v)", sl, heldCopy)
+								break
+							}
+							last = x
 						}
 					default:
 					}
